@@ -95,13 +95,20 @@ def _helper_read_frame(lit: LineIterator) -> tuple:
         resnums.append(int(line[:5]))
         resnames.append(line[5:10].split()[-1])
         attypes.append(line[10:15].split()[-1])
-        words = line[22:].split()
-        pos[i, 0] = float(words[0])
-        pos[i, 1] = float(words[1])
-        pos[i, 2] = float(words[2])
-        vel[i, 0] = float(words[3])
-        vel[i, 1] = float(words[4])
-        vel[i, 2] = float(words[5])
+        # Positions and (optional) velocities are fixed-width fields starting at column 20.
+        # All fields have the same width (8 in the standard format), which equals the
+        # distance between two decimal points. Neighbouring fields may touch.
+        numbers = line[20:].rstrip()
+        idot = numbers.find(".")
+        width = numbers.find(".", idot + 1) - idot
+        fields = [numbers[k * width : (k + 1) * width] for k in range(6)]
+        pos[i, 0] = float(fields[0])
+        pos[i, 1] = float(fields[1])
+        pos[i, 2] = float(fields[2])
+        if fields[3].strip() != "":
+            vel[i, 0] = float(fields[3])
+            vel[i, 1] = float(fields[4])
+            vel[i, 2] = float(fields[5])
     pos *= nanometer  # atom coordinates are in nanometers
     vel *= nanometer / picosecond
     # Read the cell line
